@@ -19,11 +19,13 @@ CHECKS = {
                      "a Read/ReadMultipleOf may legitimately return fewer bytes than are readable; only ReadAll must return all"],
     ),
     "C12": dict(
-        pkg=".", hdir="root", test="TestVerif_C12(Demux)?", ids=["C12", "C12D"],
-        quick=dict(shards=16, checks=1, per_test={"TestVerif_C12": 150000, "TestVerif_C12Demux": 40000}, timeout=300),
-        thorough=dict(shards=16, checks=1, per_test={"TestVerif_C12": 4000000, "TestVerif_C12Demux": 1000000}, timeout=5400),
+        pkg=".", hdir="root", test="TestVerif_C12(Demux|Roach)?", ids=["C12", "C12D", "C12R"],
+        quick=dict(shards=16, checks=1, per_test={"TestVerif_C12": 150000, "TestVerif_C12Demux": 40000, "TestVerif_C12Roach": 12}, timeout=300),
+        thorough=dict(shards=16, checks=1, per_test={"TestVerif_C12": 4000000, "TestVerif_C12Demux": 1000000, "TestVerif_C12Roach": 400}, timeout=5400),
         technique="property-based testing (rapid): integer reference model of the statement + metamorphic split-into-calls relation; differential data path (multi-channel demuxData) vs. one unwrapper per channel",
-        rule="(D) the Abaco data path: groups of 1-40 channels (around GOMAXPROCS, which is part of the case: 1-16) built by NewAbacoGroup with generated "
+        rule="(R) the ROACH data path: a real RoachDevice on a loopback port, sampled and then read by its real readPackets loop while the harness "
+             "sends 2-3 bursts (each becomes a block); the concatenated blocks must equal one unwrapper over each channel's whole sequence. "
+             "(D) the Abaco data path: groups of 1-40 channels (around GOMAXPROCS, which is part of the case: 1-16) built by NewAbacoGroup with generated "
              "inversion lists (first/last channel of the group, inside, outside), packets of 1-6 frames pushed through the real demuxData in generated "
              "call splits, every channel compared with one unwrapper over the whole channel. (main) rapid-generated option sets as the real callers build them (NewAbacoGroup: rescale/unwrap/bias/pulse sign/reset interval/"
              "inversion; RoachDevice.samplePacket: 14 fraction bits, drop 2, bias on/off) x 16-bit sequences made of 1-6 segments "
